@@ -42,5 +42,13 @@ for k, mn in enumerate(["MarshalBinary", "Data", "Equal", "Clone", "String", "op
     H.append(dict(name="bn254.G1.%s" % mn, pkg="./pairing/bn254", files=["harness/C04/gen_bn254.go"], entry="HarnessBNReadOnlyG1", mode="int", params={"p0": k}, contracts=bq_contracts, approx_bitops=True, unwind=20000, exec_timeout_s=1200,
                   race_entry="RaceBNReadOnlyG1", stubs=["gfpMul/gfpAdd/gfpSub/gfpNeg (assembly) -> writes only its output parameter, arbitrary value", "fmt formatting = empty bodies"],
                   functions=["bn254.(*pointG1).%s" % mn], bound="arbitrary Jacobian coordinates; one call", tiers=(["quick", "thorough"] if mn in ("MarshalBinary", "Data", "operands-of-Pair") else ["thorough"])))
+for n in [1, 3, 9]:
+    for pat in sorted({0, (1 << n) - 1, 0b101010101 & ((1 << n) - 1), 1 << (n - 1)}):
+        for k, mn in enumerate(["AggregatePublicKeys", "AggregateSignatures", "Clone-then-aggregate", "accessors"]):
+            H.append(dict(name="bdn.Mask.%s-n%d-mask%s" % (mn, n, format(pat, "b")), pkg="./sign/bdn", files=["harness/C20/bdn.go"], entry="HarnessBDNMaskReadOnly", mode="bv", params={"p0": n, "p1": k, "p2": pat}, unwind=200,
+                          renames={"go.dedis.ch/kyber/v4/sign/bdn.hashPointToR": "efHashPointToR"}, race_entry="RaceBDNMaskReadOnly",
+                          stubs=["kyber.Group -> fake whose operations write only their receiver", "bdn.hashPointToR -> arbitrary coefficients"],
+                          functions=["bdn.NewMask", "bdn.(*Mask).Clone", "bdn.(*Scheme).AggregatePublicKeys", "bdn.(*Scheme).AggregateSignatures", "bdn.(*Mask).forEachBitEnabled"],
+                          bound="roster of %d keys, participation pattern %s, mask built by NewMask and cloned, arbitrary keys and coefficients" % (n, format(pat, "b")), tiers=(["quick", "thorough"] if n <= 3 else ["thorough"])))
 json.dump(dict(property="C20", harnesses=H), open(os.path.join(os.path.dirname(__file__), "..", "specs", "C20.json"), "w"), indent=1)
 print(len(H))
